@@ -67,8 +67,10 @@ def _anon(c):
 def scaling(prog, fn):
     """constants of Mul/Div in a codec function"""
     out = []
-    for blk in fn.blocks:
-        if blk["cleanup"]:
+    from .util import assert_only_blocks
+    skip = assert_only_blocks(fn)
+    for bi, blk in enumerate(fn.blocks):
+        if blk["cleanup"] or bi in skip:
             continue
         for s in blk["stmts"]:
             if s["s"] == "assign" and s["rhs"]["rv"] == "bin" and s["rhs"]["op"].replace("WithOverflow", "") in ("Mul", "Div"):
